@@ -18,10 +18,10 @@ class TreeToJson(Transformer):
 
     def number(self, n):
         (n,) = n
-        if "." in n:
-            return float(n)
-        else:
+        try:
             return int(n)
+        except ValueError:
+            return float(n)
 
     list_obj = list
     pair = tuple
